@@ -159,7 +159,7 @@ def run(ctx):
             ctx.break_tie('correspondence', 'c02_' + lane,
                           "model and implementation disagree on %s" % dict(
                               estimator=rec.get('estimator'), L=rec['L'].tolist(), pairs=rec['pts'].tolist()))
-  for rec in recs[:(len(recs) if thorough or not ok else 150)] + trecs:
+  for rec in recs[:(len(recs) if thorough or not ctx.property_ok else 150)] + trecs:
     if falsify_rec(ctx, rec, 'views_agree'):
       break
   for rec in mc.scaled_L_cases(ctx.rng, 160 if thorough else 32):      # transformations learned in very large / small units
